@@ -140,7 +140,7 @@ func Routes(c explore.Chooser) *prog.Program {
 	ret := rets[rk]
 	layout := s.Pick("layout", "r0-first-of-3", "r0-last-of-3", "r0-only", "r0-middle-with-noise")
 	prefix := s.Pick("prefix", "", "/api", "/zzz", "/api/it", "/inner", "/api/inner", "/api/pkg/sub", "/inner/e")
-	regSite := s.Pick("registration", "in-func", "in-method", "two-funcs", "nested-block")
+	regSite := s.Pick("registration", "in-func", "in-method", "two-funcs", "nested-block", "one-param-returning-error")
 	sameLine := s.Pick("same-line-literals", "no", "yes")
 	shadow := s.Pick("shadowed-const", "no", "local-shadows-package-const", "two-locals-same-name")
 
@@ -245,6 +245,9 @@ func Routes(c explore.Chooser) *prog.Program {
 	switch regSite {
 	case "in-func":
 		a.WriteString("func routes" + sig + " {\n" + pre + regBody(regs) + "}\n")
+	case "one-param-returning-error":
+		// the other values are package-level variables: the registering function looks like a handler
+		a.WriteString("var (\n\tct    controller\n\tpct   = &controller{}\n\tct2   inner.Controller\n\tother otherRouter\n)\n\nfunc setupRoutes(e *echo.Echo) error {\n" + pre + regBody(regs) + "\treturn nil\n}\n")
 	case "in-method":
 		a.WriteString("type app struct{}\n\nfunc (app) routes" + sig + " {\n" + pre + regBody(regs) + "}\n")
 	case "two-funcs":
